@@ -4,6 +4,7 @@ use crate::gen::ast::*;
 use crate::gen::families::*;
 use crate::gen::layout::*;
 use crate::gen::refsem::{self, Target};
+use crate::gen::ast::{Tok, TokClass};
 use crate::lsptext;
 use crate::session::*;
 use crate::soup::SIGMA_TOK;
@@ -133,13 +134,49 @@ pub struct Base {
     pub sem: refsem::Sem,
 }
 
-pub fn base(prog: &RProgram) -> Base {
-    let pr = print_program(prog);
+fn join_words(words: &[String]) -> String {
+    words.iter().map(|w| if w.ends_with('\n') { w.clone() } else { format!("{} ", w) }).collect::<String>()
+}
+
+/// `docs`: put a doc-comment line in front of every declaration (the comment is the first
+/// token of the declaration it documents)
+pub fn base(prog: &RProgram, docs: bool) -> Base {
+    let mut pr = print_program(prog);
+    let mut sem = refsem::analyze(prog);
+    if docs {
+        let n = pr.decl_spans.len();
+        for d in (0..n).rev() {
+            let (a, _) = pr.decl_spans[d];
+            pr.toks.insert(a, Tok { text: format!("// doc{}\n", d), class: TokClass::Symbol, decl: d, level: 0 });
+        }
+        for d in 0..n {
+            let (a, b) = pr.decl_spans[d];
+            pr.decl_spans[d] = (a + d, b + d + 1);
+        }
+        let shift = |t: usize, toks_decl: usize| t + toks_decl + 1;
+        // token -> declaration index is known from the (already shifted) token list
+        let decl_of_old: Vec<usize> = {
+            let mut v = vec![];
+            for t in pr.toks.iter() {
+                if !t.text.starts_with("//") {
+                    v.push(t.decl);
+                }
+            }
+            v
+        };
+        for o in sem.occs.iter_mut() {
+            let d = decl_of_old[o.tok];
+            if let Target::Decl(t) = o.target {
+                o.target = Target::Decl(shift(t, decl_of_old[t]));
+            }
+            o.tok = shift(o.tok, d);
+        }
+    }
     let words: Vec<String> = pr.toks.iter().map(|t| t.text.clone()).collect();
-    let r = render_plain(&pr.toks, Layout::Spaces);
-    let tree = parser::parse(&lexer::lex(&r.text));
-    let analyzed = AnalyzedSource::new(r.text.clone());
-    Base { prog: prog.clone(), sem: refsem::analyze(prog), pr, words, text: r.text, spans: r.tok_ranges, tree, analyzed }
+    let text = join_words(&words);
+    let tree = parser::parse(&lexer::lex(&text));
+    let analyzed = AnalyzedSource::new(text.clone());
+    Base { prog: prog.clone(), sem, pr, words, text, spans: vec![], tree, analyzed }
 }
 
 /// Err(kind, detail)
@@ -160,8 +197,8 @@ pub fn eval(b: &Base, d: usize, dmg: &Damage, with_lsp: bool) -> Result<(), (Str
         }
     };
     // a comment token swallows the rest of its line: keep it on a line of its own
-    let text = words.iter().map(|w| if w.ends_with('\n') { w.clone() } else { format!("{} ", w) }).collect::<String>();
-    let base_text = b.words.iter().map(|w| format!("{} ", w)).collect::<String>();
+    let text = join_words(&words);
+    let base_text = join_words(&b.words);
     let _ = at;
     let t2 = text.clone();
     let res = guarded(move || {
@@ -347,14 +384,15 @@ pub fn run(tier: Tier) -> Report {
         .par_iter()
         .enumerate()
         .flat_map_iter(|(pi, p)| {
-            let b = base(p);
             let mut out: Vec<Failure> = vec![];
             let mut seen = std::collections::HashSet::new();
+            for docs in [false, true] {
+            let b = base(p, docs);
             for d in 0..p.decls.len() {
                 let (a, e) = b.pr.decl_spans[d];
                 for k in a..e {
                     let w = &b.words[k];
-                    if w == "proc" || w == "type" {
+                    if w == "proc" || w == "type" || w.starts_with("//") {
                         // the declaration keyword itself is never damaged; insertion in front of
                         // it would belong to the previous declaration
                         continue;
@@ -381,15 +419,16 @@ pub fn run(tier: Tier) -> Report {
                     }
                 }
             }
+            }
             out
         })
         .collect();
-    rep.states = progs.len() as u64;
+    rep.states = progs.len() as u64 * 2;
     rep.transitions = evals.load(Ordering::Relaxed);
     rep.evaluations = rep.transitions;
     rep.traces_validated = rep.transitions;
     rep.distinct_nontrivial = rep.transitions;
-    rep.rule = "valid programs: every subset of 2..3/4 declarations of a 5-declaration pool in every order that type checks x every declaration as the damaged one x every token of it except the declaration keyword x {delete, insert each token of the alphabet in front of it, replace it by each} (alphabet without proc/type); oracle (differential with the undamaged parse): sub-trees of all other declarations equal (Reference offset shifted by the token delta), symbol-table entries equal up to the shift, syntax diagnostics inside the damaged declaration's byte span, goto declaration inside undamaged declarations answers as before".into();
+    rep.rule = "valid programs (without and with a doc-comment line in front of every declaration): every subset of 2..3/4 declarations of a 5-declaration pool in every order that type checks x every declaration as the damaged one x every token of it except the declaration keyword x {delete, insert each token of the alphabet in front of it, replace it by each} (alphabet without proc/type); oracle (differential with the undamaged parse): sub-trees of all other declarations equal (Reference offset shifted by the token delta), symbol-table entries equal up to the shift, syntax diagnostics inside the damaged declaration's byte span, goto declaration inside undamaged declarations answers as before".into();
     rep.bounds = json!({"programs": progs.len(), "alphabet": alphabet});
     rep.sample(json!({"base": "type A = array [ 2 ] of int ; proc q ( x : int , ref z : A ) { z [ 0 ] := x ; }", "damage": "Delete(`)` of q)"}));
     rep.assumptions = vec!["the undamaged parse of the same implementation is the reference (differential)".into()];
